@@ -272,7 +272,7 @@ impl Check for VotesCheck {
             };
             let exp = m.apply(s);
             if !matches!(s, Step::Advance { .. }) {
-                st.hit(if got { "tx.ok" } else { "tx.refused" });
+                st.tx(kind, got);
                 if got && touched.last() != Some(&m.now) {
                     touched.push(m.now);
                 } else if got {
